@@ -2,6 +2,7 @@ package worlds
 
 import (
 	"context"
+	"errors"
 	"fmt"
 	"runtime"
 	"sync"
@@ -79,6 +80,8 @@ func (l *lockUnderTest) tryLock(write bool) (func(), bool) {
 func (l *lockUnderTest) excl(write bool) bool { return l.rw == nil || write }
 
 const wUnit = int64(1) << 32
+
+var errCauseTok = errors.New("cancel-cause-token")
 
 // ---------------------------------------------------------------- C01
 
@@ -189,7 +192,17 @@ func c01Case(c *mon.Case, rw bool) {
 				}
 				c.Rec(name, "release "+how, nil)
 				w.releasing(excl)
-				rel()
+				if rnd(5) == 0 {
+					// the same release function called from two goroutines at once counts once
+					var rwg sync.WaitGroup
+					rwg.Add(2)
+					go func() { defer rwg.Done(); rel() }()
+					go func() { defer rwg.Done(); rel() }()
+					rwg.Wait()
+					c.Count("concurrent_double_release", 1)
+				} else {
+					rel()
+				}
 				oldRel = rel
 			}
 			<-start
@@ -211,13 +224,29 @@ func c01Case(c *mon.Case, rw bool) {
 					}
 					hold(excl, rel, "Lock")
 				case k < 6: // Lock with a context cancelled before or while blocked
-					ctx, cancel := context.WithCancel(context.Background())
+					// context kinds: plain cancel, cancel with a cause, deadline: Lock must report context.Canceled for all
+					var ctx context.Context
+					var cancel func()
+					ctxKind := rnd(4)
+					switch ctxKind {
+					case 1:
+						cctx, ccancel := context.WithCancelCause(context.Background())
+						ctx, cancel = cctx, func() { ccancel(errCauseTok) }
+					case 2:
+						var cc context.CancelFunc
+						ctx, cc = context.WithTimeout(context.Background(), time.Duration(20+rnd(150))*time.Microsecond)
+						cancel = cc
+					default:
+						var cc context.CancelFunc
+						ctx, cc = context.WithCancel(context.Background())
+						cancel = cc
+					}
 					pre := rnd(3) == 0
 					var cancelStamp atomic.Int64
 					if pre {
 						cancelStamp.Store(c.Rec(name, "cancel before Lock", nil))
 						cancel()
-					} else {
+					} else if ctxKind != 2 {
 						delay := rnd(40)
 						go func() {
 							for i := uint64(0); i < delay; i++ {
@@ -233,12 +262,16 @@ func c01Case(c *mon.Case, rw bool) {
 					ret := c.Stamp()
 					if err != nil {
 						if err != context.Canceled {
-							c.Violate("exclusion", "lock-foreign-error", "Lock returned error %v", err)
+							c.Violate("exclusion", "lock-foreign-error", "Lock returned error %v for a cancelled context of kind %d (0/3 plain, 1 cancelled with a cause, 2 deadline); the documented error is context.Canceled", err, ctxKind)
 						}
 						if rel != nil {
 							c.Violate("exclusion", "failed-lock-returns-release", "Lock returned an error together with a non-nil release function")
 						}
-						if cs := cancelStamp.Load(); cs == 0 || cs > ret {
+						if ctxKind == 2 && !pre {
+							if ctx.Err() == nil {
+								c.Violate("exclusion", "lock-canceled-without-cancel", "Lock returned context.Canceled although its deadline context is not done")
+							}
+						} else if cs := cancelStamp.Load(); cs == 0 || cs > ret {
 							c.Violate("exclusion", "lock-canceled-without-cancel", "Lock returned context.Canceled at %d, its context was cancelled at %d (0 = not yet)", ret, cs)
 						}
 						if blockedAt.Load() != 0 {
@@ -312,7 +345,13 @@ func c01Case(c *mon.Case, rw bool) {
 		})
 	}
 	close(start)
-	if !c.WaitActors(25 * time.Second) {
+	finished, hung := c.WaitActorsOrHang(25 * time.Second)
+	if hung {
+		v := w.occ.Load()
+		c.Violate("exclusion", w.l.kind+"-unobtainable-without-holder", "every actor is blocked in Lock in a quiescent process while the harness knows of %d write and %d read holders that have not released: a failed Lock, a failed TryLock or a repeated release changed the lock's state", v>>32, v&(wUnit-1))
+		return
+	}
+	if !finished {
 		c.Inconclusive("actors did not finish")
 		return
 	}
@@ -339,10 +378,12 @@ type c02Actor struct {
 	rel       func()
 	write     bool
 	ctx       context.Context
-	cancel    context.CancelFunc
+	cancel    func()
 	cancelled bool
 	holding   bool
 	startedAt int64
+	// blockedSeenAt: stamp of the first quiescent point at which this pending call was seen blocked
+	blockedSeenAt int64
 }
 
 func runC02(w *mon.Worker) {
@@ -381,7 +422,12 @@ func c02Case(c *mon.Case, rw bool) {
 
 	startLock := func(a *c02Actor, write bool) {
 		a.write = write
-		a.ctx, a.cancel = context.WithCancel(context.Background())
+		if a.id%2 == 1 {
+			cctx, ccancel := context.WithCancelCause(context.Background())
+			a.ctx, a.cancel = cctx, func() { ccancel(errCauseTok) }
+		} else {
+			a.ctx, a.cancel = context.WithCancel(context.Background())
+		}
 		a.cancelled = false
 		a.pending.Store(true)
 		a.gotLock.Store(false)
@@ -455,18 +501,36 @@ func c02Case(c *mon.Case, rw bool) {
 			}
 			if a.gotLock.Load() && a.rel != nil {
 				a.holding = true
+				if rw && !a.write {
+					// a read acquire that started after a writer was seen blocked must not be granted
+					// before that writer acquired or gave up
+					for _, wtr := range actors {
+						if wtr != a && wtr.write && wtr.pending.Load() && !wtr.cancelled && wtr.blockedSeenAt != 0 && wtr.blockedSeenAt < a.startedAt {
+							c.Violate("waiters", "reader-granted-while-writer-waits", "reader a%d started its Lock at %d, after writer a%d had been seen blocked (quiescent at %d); the reader holds the lock now while that writer is still waiting and was not cancelled. Actions: %v", a.id, a.startedAt, wtr.id, wtr.blockedSeenAt, actionLog)
+						}
+					}
+				}
 				a.startedAt = 0
+				a.blockedSeenAt = 0
 				c.Rec(name(a), "acquired", nil)
 			} else if e := a.gotErr.Load(); e != nil {
 				a.startedAt = 0
 				a.gotErr.Store(nil)
 				c.Rec(name(a), "returned "+(*e).Error(), nil)
 				if *e != context.Canceled {
-					c.Violate("waiters", "lock-foreign-error", "Lock returned %v", *e)
+					c.Violate("waiters", "lock-foreign-error", "Lock returned %v for a cancelled context (actor %d; odd actors cancel with a cause); the documented error is context.Canceled", *e, a.id)
 				}
 				if !a.cancelled {
 					c.Violate("waiters", "lock-canceled-without-cancel", "Lock of actor %d returned context.Canceled although its context was never cancelled", a.id)
 				}
+				a.blockedSeenAt = 0
+			}
+		}
+		// every call still pending at this quiescent point is blocked
+		now := c.Stamp()
+		for _, a := range actors {
+			if a.pending.Load() && a.blockedSeenAt == 0 {
+				a.blockedSeenAt = now
 			}
 		}
 		return true
